@@ -33,6 +33,7 @@ func runC01(p *core.Prog, r *core.Report) {
 	c01R9(p, r)
 	c01R10(p, r)
 	c01R11(p, r)
+	c01R12(p, r)
 }
 
 // c01R11: the error a blob read ended with reaches whoever asked for the blob. A deferred clean-up
@@ -1347,5 +1348,69 @@ func c01R8(p *core.Prog, r *core.Report, verifiers map[*ssa.Function]bool) {
 					fmt.Sprintf("%d of %d paths run the EOF comparisons and then return %s instead of their result, without having established that the result is io.EOF itself or nil (a mismatch error wraps io.EOF)", replaced, len(paths), sample))
 			}
 		}
+	}
+}
+
+// c01R12: the end of an archive is the end of the stream, not an error that mentions it. The
+// verifying reader reports a size or digest mismatch with an error that wraps io.EOF (the mismatch is
+// found at the end of the stream); archive/tar hands that error through Next unchanged when it arrives
+// between two entries. A consumer that ends its entry loop on errors.Is(err, io.EOF) takes the
+// mismatch for the end of the archive. Consumers that compute a digest of their own after the loop
+// (the layer reader, the layer rewriter) are not affected.
+func c01R12(p *core.Prog, r *core.Report) {
+	const rule = "C01.R12"
+	r.Rule(rule, "an archive walk ends on io.EOF itself: where the error of (*tar.Reader).Next is matched with errors.Is(err, io.EOF) in a function outside package mod that has no digest of its own to check (no call of a Digest method), a mismatch error of the verifying reader — which wraps io.EOF — ends the walk like a complete archive", 1)
+	n := 0
+	lab := map[*ssa.Function]labeler{}
+	for _, fn := range p.ModFuncs {
+		if len(fn.Blocks) == 0 {
+			continue
+		}
+		// package mod rewrites layers and digests what it reads and what it writes in the step that
+		// drives these walks (C13); its nested walks are not consumers of a verified blob stream
+		if pk := core.FuncPkg(fn); pk != nil && pk.Path() == modPath("mod") {
+			continue
+		}
+		ownDigest := false
+		var sites []*ssa.Call
+		core.Calls(fn, func(c ssa.CallInstruction) {
+			cal := core.Callee(c)
+			if cal == nil {
+				return
+			}
+			if cal.Name() == "Digest" && len(c.Common().Args) <= 1 {
+				ownDigest = true
+			}
+			call, ok := c.(*ssa.Call)
+			if !ok || !core.IsFunc(cal, "errors", "Is") || len(call.Call.Args) != 2 {
+				return
+			}
+			// the target is io.EOF
+			tgt, isLoad := call.Call.Args[1].(*ssa.UnOp)
+			if !isLoad || tgt.Op != token.MUL {
+				return
+			}
+			g, isG := tgt.X.(*ssa.Global)
+			if !isG || g.Pkg == nil || g.Pkg.Pkg.Path() != "io" || g.Name() != "EOF" {
+				return
+			}
+			// the error comes from the next-entry call of a tar reader
+			for _, oc := range originCalls(call.Call.Args[0]) {
+				if f := core.Callee(oc); f != nil && f.Pkg() != nil && f.Pkg().Path() == "archive/tar" && f.Name() == "Next" {
+					sites = append(sites, call)
+				}
+			}
+		})
+		for _, s := range sites {
+			n++
+			if lab[fn] == nil {
+				lab[fn] = labeler{}
+			}
+			r.Check(ownDigest, rule, p.FuncName(fn), lab[fn].next("end of the archive"), p.Pos(s.Pos()),
+				"the entry loop ends when the error of Next merely wraps io.EOF, and the function checks no digest afterwards: a truncated or altered blob whose mismatch is reported at the end of the stream is extracted as if it were complete")
+		}
+	}
+	if n == 0 {
+		r.Held(rule, "module", "end of the archive", "", "no archive walk matches the end of the stream with errors.Is")
 	}
 }
